@@ -1,6 +1,7 @@
 import TypstyleModel.Props.C01
 import TypstyleModel.Model.Printer.Knot
 import TypstyleModel.Proofs.Tokens
+import TypstyleModel.Proofs.EndToEnd
 /-! C07 — the `@typstyle off` escape hatch reproduces the next node verbatim (printer side:
 marking and verbatim emission are theorems; "the text occurs in the output" additionally needs that
 the atom reaches the output, which every layout guarantees (R1), and the post-pass (S5), and is
@@ -98,5 +99,15 @@ theorem C07_verbatim_preserved_all_layouts (root : Node) (d : Twin.Doc) (h : ver
     (u : Nat) (m : Mode) (xs : List Atom) (hl : Lay m (d.fam u) xs) :
     verbText xs = (specVerb (prepare root)).toList :=
   certified_verbatim root d h u m xs hl
+
+/-- T7.4 (on the rendered text): the source text of a marked node — one verbatim atom in every
+layout (`C07_verbatim_is_one_atom`) — occurs character for character, blanks and line breaks
+included, in the text the renderer produces at any width.  (The post-pass then removes blanks at line
+ends only: `C11`/`C10_strip_only_removes_line_end_blanks`; that it does so inside a verbatim region
+too is finding F4.) -/
+theorem C07_verbatim_text_occurs_in_rendered_output (w : Nat) (d : Doc) (s : String)
+    (h : Atom.txt s .verbatim ∈ best w 0 [⟨0, .brk, d⟩]) :
+    s.toList <:+: (pretty w d).toList :=
+  render_infix _ _ h
 
 end Typstyle
